@@ -79,6 +79,7 @@ def spaces(tier):
             yield ("allpairs", "\u03b1\u4e2d", 5, k, "rev")
             yield ("allpairs", "A\x00", 4, k, "fwd")       # NUL is a legal character; fixed-width NumPy strings drop trailing NULs
             yield ("allpairs", "AB|", 3, k, "fwd")         # characters that code likes to use as separators
+            yield ("allpairs", "A\n\r", 3, k, "fwd")      # line terminators are characters like any other, also at the end of a string
             yield ("allpairs", "A_.", 3, k, "rev")
             # every sequence of one and the same length: shifted pairs have Levenshtein < Hamming
             yield ("eqlen", "AC", 6, k)
@@ -89,6 +90,7 @@ def spaces(tier):
             yield ("radius", si, k)
         yield ("radius-46", 2)
         yield ("clone", 150, 1)
+        yield ("clone-split", 600, 500, 1)      # > 1024 copies of one sequence, a neighbour placed between two runs of the copies
         yield ("clone", 257, 2)
         yield ("late-symbol", 130, 1)
         yield ("late-symbol", 1030, 1)
@@ -148,6 +150,10 @@ def build(case):
         _, n, k = case
         base = "CASSLGQAYEQYF"
         return [base] * n + [base[:5] + "A" + base[6:], base[:-1], base + "G", "CAWWLGQAYEQYF", base], k
+    if kind == "clone-split":
+        _, n1, n2, k = case
+        base = "CASSLGQAYEQYF"
+        return [base] * n1 + [base[:5] + "A" + base[6:]] + [base] * n2 + [base[:-1], "CAWWLGQAYEQYF"], k
     if kind == "late-symbol":
         # a long amino-acid-only prefix followed by sequences with other symbols (X, *, lower case) next to their neighbours
         _, n, k = case
@@ -206,7 +212,7 @@ def check_case(case, acc):
         acc.cls("all-sequences-of-one-length")
     if case[0] in ("radius", "radius-46"):
         acc.cls("large-radius-on-long-strings")
-    if case[0] == "clone":
+    if case[0] in ("clone", "clone-split"):
         acc.cls("clone-of-more-than-128-copies")
     if case[0] == "late-symbol":
         acc.cls("non-amino-acid-symbol-after-long-prefix")
